@@ -54,6 +54,21 @@ def specs(tier, seed):
         ("buffer", fam.base(5, [fam.fx("t0", 2), fam.fx("t1", 1)], buffers=[{"name": "bf", "initial": 1, "lower": 0}],
                             constraints=[{"id": "u", "kind": "TaskUnloadBuffer", "task": "t0", "buffer": "bf", "quantity": 2},
                                          {"id": "l", "kind": "TaskLoadBuffer", "task": "t1", "buffer": "bf", "quantity": 1}])),
+        # buffers next to workers, no objective and no indicator (nothing but the buffer needs more than difference logic)
+        ("buffer_worker_feasible", fam.base(6, [fam.fx("t0", 2), fam.fx("t1", 2)], workers=W, requirements=on,
+                                            buffers=[{"name": "bf", "initial": 0, "lower": 0}], constraints=[
+            {"id": "l", "kind": "TaskLoadBuffer", "task": "t0", "buffer": "bf", "quantity": 3},
+            {"id": "u", "kind": "TaskUnloadBuffer", "task": "t1", "buffer": "bf", "quantity": 3}])),
+        ("buffer_worker_infeasible", fam.base(6, [fam.fx("t0", 2), fam.fx("t1", 2)], workers=W, requirements=on,
+                                              buffers=[{"name": "bf", "initial": 0, "lower": 0}], constraints=[
+            {"id": "l", "kind": "TaskLoadBuffer", "task": "t0", "buffer": "bf", "quantity": 3},
+            {"id": "u", "kind": "TaskUnloadBuffer", "task": "t1", "buffer": "bf", "quantity": 3},
+            {"id": "s", "kind": "TaskStartAt", "task": "t1", "value": 0}])),
+        ("concurrent_buffer_worker", fam.base(6, [fam.fx("t0", 2), fam.fx("t1", 2)], workers=W, requirements=on,
+                                              buffers=[{"name": "bf", "concurrent": True, "initial": 0, "lower": 0}],
+                                              constraints=[
+            {"id": "l", "kind": "TaskLoadBuffer", "task": "t0", "buffer": "bf", "quantity": 3},
+            {"id": "u", "kind": "TaskUnloadBuffer", "task": "t1", "buffer": "bf", "quantity": 3}])),
         ("weighted", fam.base(6, [fam.fx("t0", 2), fam.fx("t1", 1)], workers=W, requirements=on, indicators=[
             {"id": "i", "kind": "FromExpr", "name": "s0", "expr": ["start", "t0"]},
             {"id": "j", "kind": "FromExpr", "name": "s1", "expr": ["start", "t1"]}], objectives=[
